@@ -93,7 +93,7 @@ where
     }
 }
 
-pub fn run_full<T>(fs: &[&str], spec: &Spec, eq: Option<fn(&T, &T) -> bool>) -> String
+pub fn run_full<T>(fs: &[&str], spec: &Spec, eq: Option<fn(&T, &T) -> bool>, clear: fn(&mut T, &str) -> bool) -> String
 where
     T: FromDeb822Paragraph<lossy::Paragraph>
         + FromDeb822Paragraph<lossless::Paragraph>
@@ -123,10 +123,18 @@ where
         },
         from_ll
     );
-    let v = match from_l {
+    let mut v = match from_l {
         Ok(v) => v,
         Err(_) => return head,
     };
+    // case field 5: keys of list fields to empty (a value from_paragraph itself cannot produce for every codec)
+    if fs.len() > 5 && fs[5] != "-" && !fs[5].is_empty() {
+        for k in fs[5].split(',') {
+            if !clear(&mut v, &unhex(k)) {
+                return format!("{}|clr=UNSUPPORTED", head);
+            }
+        }
+    }
     body(head, &v, prior, spec, true, &|a: &T, b: &T| same(spec, eq, a, b))
 }
 
